@@ -29,6 +29,7 @@ type EntrySpec struct {
 	NoValidate      bool                      `json:"no_validate,omitempty"`
 	Covers          []string                  `json:"covers,omitempty"` // cover goals that must be met
 	Note            string                    `json:"note,omitempty"`
+	Redirects       map[string]string         `json:"redirects,omitempty"` // additional redirects for this entry only
 }
 
 type PropSpec struct {
@@ -226,6 +227,26 @@ func (nb *nativeBuilder) run(entry string, params map[string]int, inputs []Input
 			traces = append(traces, strings.TrimPrefix(l, "TRACE "))
 		}
 	}
+	if len(fails) == 0 && strings.Contains("\n"+raw, "\npanic: ") && strings.Contains(raw, "goroutine ") {
+		// the process died: report the first frame inside the repository
+		lines := strings.Split(raw, "\n")
+		seen := false
+		for _, l := range lines {
+			if strings.HasPrefix(l, "panic: ") {
+				seen = true
+				continue
+			}
+			l = strings.TrimSpace(l)
+			if !seen || !strings.HasPrefix(l, "/repo/") || strings.Contains(l, "/zzverif/") || strings.Contains(l, "zz_verif_") {
+				continue
+			}
+			if j := strings.Index(l, " +0x"); j >= 0 {
+				l = l[:j]
+			}
+			fails = append(fails, "process-crash@"+strings.TrimPrefix(l, "/repo/"))
+			break
+		}
+	}
 	return
 }
 
@@ -297,6 +318,7 @@ func cmdCheck(args []string) {
 	only := fs.String("only", "", "run only this entry (Fn name)")
 	workers := fs.Int("workers", 0, "workers")
 	keep := fs.Bool("keep", false, "keep native build")
+	maxPathsFlag := fs.Int("max-paths", 0, "override max paths (debugging)")
 	fs.Parse(args[1:])
 	id := args[0]
 	if *tier == "" {
@@ -335,6 +357,7 @@ func cmdCheck(args []string) {
 	}
 	known := loadKnown()
 	redirects := map[string]*ssa.Function{}
+	var allFuncs map[string]*ssa.Function
 	if len(spec.Redirects) > 0 {
 		all := map[string]*ssa.Function{}
 		for f := range ssautilAllFunctions(prog) {
@@ -389,8 +412,34 @@ func cmdCheck(args []string) {
 		cfg.Blackhole = append(cfg.Blackhole, spec.Blackhole...)
 		cfg.InitAllow = append(cfg.InitAllow, spec.InitAllow...)
 		cfg.Redirects = redirects
+		if len(e.Redirects) > 0 {
+			merged := map[string]*ssa.Function{}
+			for k, v := range redirects {
+				merged[k] = v
+			}
+			for from, to := range e.Redirects {
+				if allFuncs == nil {
+					allFuncs = map[string]*ssa.Function{}
+					for f := range ssautilAllFunctions(prog) {
+						allFuncs[f.String()] = f
+					}
+				}
+				if _, ok := allFuncs[from]; !ok || allFuncs[to] == nil {
+					msg := fmt.Sprintf("%s: redirect %s -> %s does not resolve in the current tree", e.Fn, from, to)
+					fmt.Println("INCONCLUSIVE:", msg)
+					evidenceInconclusive = append(evidenceInconclusive, msg)
+					continue
+				}
+				merged[from] = allFuncs[to]
+			}
+			cfg.Redirects = merged
+		}
+		redirectsForEntry := cfg.Redirects
 		cfg.Params = params
 		cfg.MaxPaths = e.MaxPaths
+		if *maxPathsFlag > 0 {
+			cfg.MaxPaths = *maxPathsFlag
+		}
 		cfg.SampleModels = 3
 		if *tier == "thorough" {
 			cfg.SampleModels = 8
@@ -464,7 +513,7 @@ func cmdCheck(args []string) {
 				ccfg.Workers = 1
 				ccfg.Blackhole = cfg.Blackhole
 				ccfg.InitAllow = cfg.InitAllow
-				ccfg.Redirects = redirects
+				ccfg.Redirects = redirectsForEntry
 				ccfg.Params = params
 				ccfg.Concrete = conc
 				csum := Explore(prog, fn, ccfg)
@@ -690,6 +739,18 @@ var _ *ssa.Function
 func labelsMatch(a, b string) bool {
 	if a == b {
 		return true
+	}
+	// a native crash of the whole process (panic in a goroutine the harness does
+	// not own, e.g. Raft's FSM runner) is matched on the panic site alone
+	if strings.HasPrefix(a, "process-crash@") || strings.HasPrefix(b, "process-crash@") {
+		ja, jb := strings.Index(a, "@"), strings.Index(b, "@")
+		if ja < 0 || jb < 0 {
+			return false
+		}
+		a, b = "x"+a[ja:], "x"+b[jb:]
+		if a == b {
+			return true
+		}
 	}
 	ia, ib := strings.LastIndex(a, ":"), strings.LastIndex(b, ":")
 	if ia < 0 || ib < 0 || a[:ia] != b[:ib] || !strings.Contains(a[:ia], "@") {
